@@ -3283,6 +3283,19 @@ def emit(ast: Program) -> str:
         ]
         ultrasonic_sections.append("\n".join(helper_lines))
 
+    # Forward declarations, right after the globals: a function body may call a
+    # function that is defined further down, or the measurement helper of an
+    # ultrasonic sensor.
+    prototypes: List[str] = []
+    for fn in getattr(ast, "functions", []):
+        params_src = ", ".join(f"{ptype} {name}" for name, ptype in fn.params)
+        prototypes.append(f"{fn.return_type} {fn.name}({params_src});")
+    for name in sorted(ultrasonic_measurements):
+        if name in ultrasonic_decls:
+            prototypes.append(f"float __redu_ultrasonic_measure_{name}();")
+    if prototypes:
+        function_sections.insert(0, "\n".join(prototypes) + "\n\n")
+
     # Stitch sections
     parts: List[str] = [HEADER]
     if servo_used:
